@@ -18,7 +18,7 @@ Days == {<<1, 1, 1>>, <<1970, 1, 1>>, <<2015, 8, 2>>, <<2015, 12, 31>>, <<2016, 
 Clocks == {<<0, 0, 0>>, <<23, 59, 59>>, <<12, 34, 56>>, <<2, 30, 0>>, <<1, 30, 0>>}
           \cup (IF Deep THEN {<<1, 59, 59>>, <<2, 0, 0>>, <<3, 0, 0>>, <<0, 59, 59>>, <<6, 59, 59>>, <<7, 0, 0>>} ELSE {})
 Nss == {0, 500000000, 123456789, 1000, 999999999, 120000000, 1} \cup (IF Deep THEN {999999500, 10, 100000000, 999999, 5000} ELSE {})
-Offs == {0, -43200, -16200, -14400, 19800, 50400} \cup (IF Deep THEN {60, -60, 3600, -34200, 45900} ELSE {})
+Offs == {0, -43200, -16200, -14400, -1800, 2700, 19800, 50400} \cup (IF Deep THEN {60, -60, 3600, -34200, 45900} ELSE {})
 CtxZones == {"UTC", "+05:30", "-04:00", "America/New_York"}
 
 Values == {MkDate(d[1], d[2], d[3]) : d \in Days}
@@ -47,7 +47,7 @@ Law(v, z) ==
      /\ p.ok = "y" /\ p.v = v
      /\ (v.ty \in {"date", "ts"}) =>
           LET up == Cast(v, "tstz", TRUE, z)
-          IN up.ok =>
+          IN (up.ok /\ LocalExistsOnce(z, DayNumber(v.y, v.mo, v.d), SecOfDay(v))) =>
                /\ up.v.ty = "tstz" /\ up.v.y = v.y /\ up.v.mo = v.mo /\ up.v.d = v.d /\ up.v.h = v.h /\ up.v.mi = v.mi /\ up.v.sec = v.sec /\ up.v.ns = v.ns
                /\ LET down == Cast(up.v, v.ty, TRUE, z) IN down.ok /\ down.v = v
      (* zone-less -> zone-aware without WithTZ is refused *)
